@@ -301,21 +301,27 @@ class CcAnyRT(_RT):
     xcheck = 0
 
     def cases(self):
-        return [{"id": "explicit", "default": d} for d in (None, "d")]
+        # a default list of two entries, given in an order that is not the sorted one: the order is part of the record
+        return [{"id": "explicit", "default": d} for d in (None, "d")] + [{"id": "explicit", "default": "e", "second": "d"}]
+
+    @staticmethod
+    def _defaults(case):
+        d = case["default"]
+        return None if not d else [d] + ([case["second"]] if case.get("second") else [])
 
     def setup(self, c, case):
         fam, xs = int_children(c)
         c.symbolic_ids = True
         # wf: child ids are pairwise distinct, so at most one child is the default
         from pyvc.nodes import fsum, ite
-        n_def = fsum(xs, lambda x: ite(band(x.atom_truth(), x.id == "d"), 1, 0))
-        c.assume_global(n_def <= 1)
+        for d in ("d", "e"):
+            n_def = fsum(xs, lambda x: ite(band(x.atom_truth(), x.id == d), 1, 0))
+            c.assume_global(n_def <= 1)
         return {"xs": xs}
 
     def run(self, c, st):
         cc, classes = cc_classes(c.repo)
-        d = c.state_case["default"]
-        x = cc.Any(*st["xs"], default=[d] if d else None, variable="A")
+        x = cc.Any(*st["xs"], default=self._defaults(c.state_case), variable="A")
         st["x"] = x
         js = x.to_json()
         st["js"] = js
@@ -329,19 +335,60 @@ class CcAnyRT(_RT):
             out.append(("rt.default-branch-tag-kept", _tagged(res) == _tagged(x)))
         return out
 
+    cls_name = "Any"
+
     def concretise(self, case, k, model, c, st):
-        return None
+        from pyvc.sym import intern_id
+        fam = c.families["X"]
+        kids = concretise_children(model, fam, k, c.env)
+        for j, d in enumerate(kids):
+            if d["kind"] != "atom":
+                continue
+            for name in ("d", "e"):
+                if z3.is_true(model.eval(fam.fn("id")(z3.IntVal(j)) == intern_id(name).t, model_completion=True)):
+                    d["id"] = name
+        return {"case": dict(case), "children": kids}
+
+    def replay(self, w):
+        import json
+        import puan
+        import puan.logic.plog as pg
+        import puan.modules.configurator as cc
+        classes = [puan.variable, pg.AtLeast, pg.AtLeast, pg.AtMost, pg.All, cc.Any, cc.Xor, pg.Not, pg.XNor, pg.Imply]
+        defaults = self._defaults(w["case"])
+        kids, env = build_children(w["children"])
+        if len({k.id for k in kids}) != len(kids):
+            return {"violated": [], "detail": {"note": "witness has two children with one id (outside the precondition)"}}
+        mk = lambda ks: getattr(cc, self.cls_name)(*ks, default=list(defaults) if defaults else None, variable="A")
+        x = mk(kids)
+        js = json.loads(json.dumps(x.to_json()))
+        y = pg.from_json(js, classes)
+        violated, detail = [], {"model": x.to_text(), "json": js, "roundtrip": y.to_text() if hasattr(y, "to_text") else repr(y)}
+        a = mk(build_children(w["children"])[0]).evaluate(dict(env))
+        b = y.evaluate(dict(env))
+        if tuple(a.as_tuple()) != tuple(b.as_tuple()):
+            violated.append("rt.truth")
+        if y.id != x.id:
+            violated.append("rt.id-kept")
+        if defaults:
+            if [v.id for v in getattr(y, "default", [])] != [v.id for v in x.default]:
+                violated.append("rt.default-kept")
+                detail["default"] = [[str(v.id) for v in x.default], [str(v.id) for v in getattr(y, "default", [])]]
+            tag = lambda n: sorted(str(t.id) for t in n.flatten() if getattr(t, "prio", None) == -2)
+            if self.cls_name == "Any" and tag(x) != tag(y):
+                violated.append("rt.default-branch-tag-kept")
+        return {"violated": violated, "detail": detail}
 
 
 class CcXorRT(CcAnyRT):
     name = "json:cc.Xor"
+    cls_name = "Xor"
     function = "Xor.to_json"
     functions = ["Xor.to_json", "Xor.from_json", "Xor.__init__"]
 
     def run(self, c, st):
         cc, classes = cc_classes(c.repo)
-        d = c.state_case["default"]
-        x = cc.Xor(*st["xs"], default=[d] if d else None, variable="A")
+        x = cc.Xor(*st["xs"], default=self._defaults(c.state_case), variable="A")
         st["x"] = x
         js = x.to_json()
         st["js"] = js
